@@ -171,7 +171,7 @@ def corrupt_case(args):
         cor.append({"cls": case.name, "kind": case.kind, "width": case.width, "nbits": nbits, "pattern": pattern,
                     "cwpattern": sorted(case.order(t, nbits) for t in pattern), "outcome": outcome, "zero_field": zero})
 
-    npdu = 6 if quick else 40
+    npdu = 6 if quick else 20
     for n in range(npdu):
         o = case.build(rng)
         bits = case.ser(o)
@@ -281,23 +281,32 @@ def run(ctx):
     ctx.count(None, (1 << 20) + (1 << 16))
     for c in cor:
         ctx.count(core.digest([c["cls"], c["pattern"], c["outcome"]]))
+    judged = []
     ctx.note("slot_words_accepted", len(slot))
     ctx.note("emb_words_accepted", len(emb))
     ctx.note("corruption_cases", len(cor))
     ctx.note("outcomes", {o: sum(1 for c in cor if c["outcome"] == o) for o in ("indicator_false", "decode_error", "same_fields", "accepted_different")})
-    data = {"golay": golay, "qr": qr, "slot_accepted": slot, "emb_accepted": emb, "rt": rt, "cor": cor}
-    path = os.path.join(ctx.rundir, "c04_data.json")
-    json.dump(data, open(path, "w"))
     ctx.sample({"corruption_case": cor[len(cor) // 2], "round_trip": rt[0]})
-    res = core.run_tlc(ctx, "MC_Integrity", "MC_Integrity.cfg", env={"DATA_FILE": path}, timeout=2400, jvm=("-Xss256m",))
-    want = (1 << 20) + (1 << 16) + len(rt) + len(cor)
-    if not res.ok or res.distinct < want:
-        raise core.MachineryError(f"TLC did not judge all items ({res.distinct} < {want})")
-    ctx.exhaustive = True
-    ctx.traces_validated = len(rt) + len(cor)
+    nsl = max(1, (len(cor) + 399999) // 400000)          # TLC judges at most ~400 000 corruption records per run (memory)
     groups = {}
-    for v in core.parse_printed_json(res, tag="REJECT"):
-        ph, i, why = v["phase"], v["idx"], v["why"]
+    ctx.traces_validated = 0
+    for j in range(nsl):
+        part = cor[j::nsl]
+        first = j == 0
+        data = {"golay": golay, "qr": qr, "slot_accepted": slot if first else [0], "emb_accepted": emb if first else [0],
+                "rt": rt if first else [], "cor": part, "phases": ["slot", "emb", "rt", "cor"] if first else ["cor"]}
+        path = os.path.join(ctx.rundir, f"c04_data_{j}.json")
+        json.dump(data, open(path, "w"))
+        res = core.run_tlc(ctx, "MC_Integrity", "MC_Integrity.cfg", env={"DATA_FILE": path}, timeout=2400, jvm=("-Xss256m",))
+        os.unlink(path)
+        want = ((1 << 20) + (1 << 16) + len(rt) if first else 0) + len(part)
+        if not res.ok or res.distinct < want:
+            raise core.MachineryError(f"TLC did not judge all items ({res.distinct} < {want})")
+        ctx.traces_validated += (len(rt) if first else 0) + len(part)
+        for v in core.parse_printed_json(res, tag="REJECT"):
+            judged.append((v["phase"], v["idx"] if v["phase"] != "cor" else j + v["idx"] * nsl, v["why"]))
+    ctx.exhaustive = True
+    for ph, i, why in judged:
         if ph in ("slot", "emb"):
             w = i
             if ph == "slot":
